@@ -197,7 +197,9 @@ def line_text(i, l):
         return [f"! note {i}_{j}" for j in range(l[1])]
     return [{"I": f"#ifdef {l[1] if len(l) > 1 else ''}", "N": f"#ifndef {l[1] if len(l) > 1 else ''}",
              "L": f"#elif defined({l[1] if len(l) > 1 else ''})", "E": "#else", "X": "#endif",
-             "H": f'#include "{l[1] if len(l) > 1 else ""}"'}[k]]
+             "H": f'#include "{l[1] if len(l) > 1 else ""}"',
+             "D": f"#define {l[1] if len(l) > 1 else ''} {l[2] if len(l) > 2 else ''}".rstrip(),
+             "Q": f"#if {l[1] if len(l) > 1 else ''} == {l[2] if len(l) > 2 else ''}"}[k]]
 
 
 def render(lines, lang="c"):
@@ -229,13 +231,38 @@ def render(lines, lang="c"):
     return "\n".join(out) + "\n", nodes
 
 
-def reached(lines, defines, includes=None, lang="c"):
-    """indices (in node order) of the nodes the visitor associates for one compile command;
-    when [includes] is a list, the target file indices of the reached #include lines are appended to it."""
+MODES = {"-fa": ("ma", ["MV=1"]), "-fb": ("mb", ["MV=2"]), "-fc": ("mc", ["MX"])}
+
+
+def entry_defines(case, pname, defs):
+    """the -D list of one compile command in the order finder.find sees it: the command line's -D options in
+    order, then the defines of the active compiler modes in the order their flags appear on the command line."""
+    out = list(defs)
+    for flag in dict.fromkeys(case.get("opts", {}).get(pname, {}).get("modes", [])):
+        out += MODES[flag][1]
+    return out
+
+
+def resolve(case, name, this_dir, search):
+    """Platform.find_include_file for a quoted name: the includer's directory, then the -I directories in order."""
+    index = {pstr(f[0]): i for i, f in enumerate(case["files"])}
+    for d in [this_dir] + search:
+        cand = os.path.normpath(os.path.join(pstr(d) or ".", name))
+        if cand in index:
+            return index[cand]
+    return None
+
+
+def walk(case, idx, env, search, out, depth):
+    """One visit of files[idx] by the associator with the macro table [env] (first definition wins) and the
+    include search list [search]: appends the (path, node) pairs it associates, follows reached #include lines."""
+    p, lines = case["files"][idx]
+    lang = lang_of(p)
     if lang == "asm":
-        return [0] if any(l[0] in ("C", "B") for l in lines) else []
-    hit, stack, node, run_open = [], [], 0, False
-    live = True
+        if any(l[0] in ("C", "B") for l in lines):
+            out.append([p, 0])
+        return
+    stack, node, run_open, live = [], 0, False, True
     for l in lines:
         k = l[0]
         if k == "B" and lang == "fortran":
@@ -244,19 +271,27 @@ def reached(lines, defines, includes=None, lang="c"):
             if not run_open:
                 run_open = True
                 if live:
-                    hit.append(node)
+                    out.append([p, node])
                 node += 1
             continue
         run_open = False
         if k == "H":
             if live:
-                hit.append(node)
-                if includes is not None:
-                    includes.append(l[2])
-        elif k in ("I", "N"):
+                out.append([p, node])
+                t = l[2] if len(l) > 2 and l[2] is not None else resolve(case, l[1], p[:-1], search)
+                if t is not None and depth < 8:
+                    walk(case, t, env, search, out, depth + 1)
+        elif k == "D":
             if live:
-                hit.append(node)
-                t = (l[1] in defines) == (k == "I")
+                out.append([p, node])
+                env.setdefault(l[1], str(l[2]) if len(l) > 2 and l[2] != "" else "")
+        elif k in ("I", "N", "Q"):
+            if live:
+                out.append([p, node])
+                if k == "Q":
+                    t = env.get(l[1]) == str(l[2])
+                else:
+                    t = (l[1] in env) == (k == "I")
                 stack.append([True, t, live])
                 live = t
             else:
@@ -264,32 +299,38 @@ def reached(lines, defines, includes=None, lang="c"):
         elif k in ("L", "E"):
             parent, taken, outer = stack[-1]
             if parent:
-                hit.append(node)
+                out.append([p, node])
                 if taken:
                     live = False
                 else:
-                    t = True if k == "E" else (l[1] in defines)
+                    t = True if k == "E" else (l[1] in env)
                     stack[-1][1] = t
                     live = t
         elif k == "X":
             parent, taken, outer = stack.pop()
             if parent:
-                hit.append(node)
+                out.append([p, node])
             live = outer
         node += 1
-    return hit
 
 
-def reach_all(files, idx, defines, depth=0):
-    """(path, node) pairs associated by one compile command of files[idx]: its own nodes and,
-    through every reached #include, the nodes of the included files (textual order, repeats kept).
-    The lexer is chosen by the REAL file's name."""
-    p, lines = files[idx]
-    inc = []
-    out = [[p, n] for n in reached(lines, defines, inc, lang_of(p))]
-    if depth < 8:
-        for t in inc:
-            out += reach_all(files, t, defines, depth + 1)
+def entry_hits(case, pname, defs, c):
+    """(path, node) pairs associated by one compile command: forced includes first, then the file, one macro
+    table for the whole command."""
+    opts = case.get("opts", {}).get(pname, {})
+    fidx = comp_target(case, c)[0]
+    env = {}
+    for d in entry_defines(case, pname, defs):
+        m, eq, v = d.partition("=")
+        env.setdefault(m, v if eq else "1")
+    search = [case["incdirs"][i] for i in opts.get("I", [])]
+    out = []
+    this_dir = case["files"][fidx][0][:-1]
+    for name in opts.get("include", []):
+        t = resolve(case, name, this_dir, search)
+        if t is not None:
+            walk(case, t, env, search, out, 0)
+    walk(case, fidx, env, search, out, 0)
     return out
 
 
@@ -368,11 +409,13 @@ class C14(Check):
             "all-zero tables, repeated names, punctuation, blanks, non-ASCII). P: code bases of 2-7 files in nested directories with "
             "#ifdef/#ifndef/#elif/#else structure and '!' lines, file names of three lexer classes (c/c++, fortran-free, asm), duplicate "
             "files, headers reached through (nested) #include, symbolic links whose name is of ANOTHER lexer class than their target "
-            "(some named by compile commands), 1-4 platforms with -D sets, each analysed by codebasin, cbi-tree and cbi-cov in a fresh interpreter under 4 schedules. F: the same code "
+            "(some named by compile commands), 2-3 -I directories holding same-named headers with different #defines listed in a "
+            "different order per platform, repeated -D of one macro, forced includes, compiler modes defining one macro "
+            "differently, #if MV == n blocks, 1-4 platforms with -D sets, each analysed by codebasin, cbi-tree and cbi-cov in a fresh interpreter under 4 schedules. F: the same code "
             "bases through finder.find + get_setmap in process, 4 runs with permuted configuration and shuffled scandir, observing "
             "the dict with its insertion order and every node's platform set. Non-trivial: T - at least two platforms and two rows "
             "of equal size; P - additionally files in more than one directory; F - two platforms, three rows, two directories")
-    assumptions = ["which nodes a compile command reaches is C01/C04's subject: the model takes it as input (computed by an independent stack-machine oracle on #ifdef/#ifndef/#elif defined/#else/#endif)",
+    assumptions = ["which nodes a compile command reaches is C01/C04's subject: the model takes it as input (computed by an independent stateful oracle: #ifdef/#ifndef/#if M == n/#elif defined/#else/#endif, #define with first-definition-wins, quoted includes searched in the includer's directory then the -I list in order, forced includes first)",
                    "every symbolic link among the members points to a regular member of the code base (trees and association maps are keyed by the real path, the lexer is chosen by the real file name); counts stay below 2^53",
                    "runtime schedules (hash seeds, scandir order, platform-table order) are SAMPLED; Coq proves invariance of the model under every permutation",
                    "tabulate, json.dump and format(x,'.2f') are deterministic functions of their arguments (format is checked against the model's decimal rounding on every float)"]
@@ -437,7 +480,10 @@ class C14(Check):
                     out.append(["B", 1])
             else:
                 m = r.choice(macros)
-                out.append([r.choice(["I", "I", "N"]), m])
+                if r.random() < 0.25:
+                    out.append(["Q", "MV", r.choice([1, 2])])          # #if MV == n
+                else:
+                    out.append([r.choice(["I", "I", "N"]), m])
                 out += self.gen_lines(macros, depth + 1)
                 if r.random() < 0.3:
                     out.append(["L", r.choice(macros)])
@@ -487,6 +533,39 @@ class C14(Check):
             defs = [m for m in macros if r.random() < 0.5]
             comp = [i for i in srcs if r.random() < 0.7] or [r.choice(srcs)]
             plats.append([name, defs, comp])
+        # several include directories holding headers of the SAME name with different effect; every platform
+        # lists them in its own order; repeated -D of one macro, forced includes, compiler modes in flag order
+        incdirs, opts = [], {}
+        if r.random() < 0.65:
+            incdirs = r.sample([["inc", "x"], ["inc", "y"], ["cfg"]], r.randint(2, 3))
+            effects = [["MX", ""], ["MY", ""], ["MV", 1], ["MV", 2], ["MV", 1], ["MV", 2]]
+            for d in incdirs:
+                for hname in ["cfg.h", "opt.h"]:
+                    if r.random() < 0.75:
+                        m, v = r.choice(effects)
+                        body = [["D", m, v]] + ([["C", 1, 0]] if r.random() < 0.5 else [])
+                        if r.random() < 0.3:
+                            m2, v2 = r.choice(effects)
+                            body.append(["D", m2, v2])
+                        files.append([d + [hname], body])
+                        used.add(pstr(d + [hname]))
+            for i in srcs:
+                if lang_of(files[i][0]) != "asm" and r.random() < 0.7:
+                    files[i][1].insert(r.choice([0, 0, 1]), ["H", r.choice(["cfg.h", "opt.h"]), None])
+                if r.random() < 0.6:
+                    # a block whose attribution depends on WHICH definition of MV came first
+                    files[i][1] += [["Q", "MV", r.choice([1, 2])], ["C", r.randint(1, 2), 0], ["E"], ["C", r.randint(1, 3), 1], ["X"]]
+            for pl in plats:
+                o = {"I": r.sample(range(len(incdirs)), r.randint(2, len(incdirs)))}
+                if r.random() < 0.4:
+                    o["include"] = r.sample(["cfg.h", "opt.h"], r.choice([1, 2, 2]))
+                if r.random() < 0.4:
+                    dup = ["MV=1", "MV=2"]
+                    r.shuffle(dup)
+                    pl[1] = pl[1] + dup[:r.randint(1, 2)]
+                if r.random() < 0.45:
+                    o["modes"] = r.sample(list(MODES), r.randint(2, 3))
+                opts[pl[0]] = o
         # symbolic links whose name falls into ANOTHER language class than the file they point to, some of them
         # named by compile commands
         links = []
@@ -513,7 +592,8 @@ class C14(Check):
             a, b, c = list(range(len(files) + len(links))), list(range(nev)), list(range(len(plats[0][2])))
             r.shuffle(a), r.shuffle(b), r.shuffle(c)
             perms.append([a, b, c])
-        return {"k": "P", "files": files, "links": links, "plats": plats, "sched": sched, "perms": perms}
+        return {"k": "P", "files": files, "links": links, "incdirs": incdirs, "opts": opts, "plats": plats,
+                "sched": sched, "perms": perms}
 
     def generate(self):
         out = []
@@ -560,7 +640,8 @@ class C14(Check):
                 a, b = list(range(len(c["files"]) + len(c["links"]))), list(range(nev))
                 self.rng.shuffle(a), self.rng.shuffle(b)
                 perms.append([a, b])
-            out.append({"k": "F", "files": c["files"], "links": c["links"], "plats": c["plats"],
+            out.append({"k": "F", "files": c["files"], "links": c["links"], "incdirs": c["incdirs"], "opts": c["opts"],
+                        "plats": c["plats"],
                         "runs": [[self.rng.randint(0, 10 ** 6), self.rng.randint(0, 10 ** 6)] for _ in range(3)], "perms": perms})
         return out
 
@@ -573,11 +654,11 @@ class C14(Check):
         events = []
         for name, defs, comp in case["plats"]:
             for c in comp:
-                events.append([name, reach_all(case["files"], comp_target(case, c)[0], defs)])
+                events.append([name, entry_hits(case, name, defs, c)])
         name, defs, comp = case["plats"][0]
         cev = []
         for c in comp:
-            cev.append(["cli", reach_all(case["files"], comp_target(case, c)[0], defs)])
+            cev.append(["cli", entry_hits(case, name, defs, c)])
         return files, events, cev
 
     def encode(self, case):
@@ -663,15 +744,32 @@ class C14(Check):
                 fp.parent.mkdir(parents=True, exist_ok=True)
                 # a relative link; it may be created before its target exists
                 os.symlink(os.path.relpath(pstr(case["files"][t][0]), os.path.dirname(pstr(lp)) or "."), fp)
+        for d in case.get("incdirs", []):
+            root.joinpath(*d).mkdir(parents=True, exist_ok=True)
+        if any(o.get("modes") for o in case.get("opts", {}).values()):
+            # a user-defined compiler whose modes define the same macro differently
+            cfgtxt = ["[compiler.mycc]", ""]
+            for flag, (mode, _) in MODES.items():
+                cfgtxt += ["[[compiler.mycc.parser]]", f'flags = ["{flag}"]', 'action = "append_const"', 'dest = "modes"',
+                           f'const = "{mode}"', ""]
+            for flag, (mode, mdefs) in MODES.items():
+                cfgtxt += ["[[compiler.mycc.modes]]", f'name = "{mode}"', "defines = " + json.dumps(mdefs), ""]
+            (root / ".cbi").mkdir(exist_ok=True)
+            (root / ".cbi" / "config").write_text("\n".join(cfgtxt))
         plats = list(case["plats"])
         random.Random(plat_seed).shuffle(plats)
         toml = []
         for name, defs, comp in plats:
+            opts = case.get("opts", {}).get(name, {})
+            words = [f"-D{d}" for d in defs] + [f"-I{pstr(case['incdirs'][i])}" for i in opts.get("I", [])]
+            for h in opts.get("include", []):
+                words += ["-include", h]
+            words += list(opts.get("modes", []))
+            cc = "mycc" if opts.get("modes") else "cc"
             db = []
             for c in comp:
                 rel = pstr(comp_target(case, c)[1])
-                db.append({"file": rel, "directory": str(root),
-                           "command": "cc " + " ".join(f"-D{d}" for d in defs) + f" -c {rel}"})
+                db.append({"file": rel, "directory": str(root), "command": " ".join([cc] + words + ["-c", rel])})
             (root / f"db_{name}.json").write_text(json.dumps(db))
             toml.append(f'[platform.{name}]\ncommands = "db_{name}.json"\n')
         (root / "a.toml").write_text("\n".join(toml))
@@ -807,8 +905,11 @@ class C14(Check):
                 comp = list(comp)
                 if k:
                     prng.shuffle(comp)
-                cfg[name] = [{"file": str(root.joinpath(*comp_target(case, i)[1])), "defines": list(defs),
-                              "include_paths": [], "include_files": []} for i in comp]
+                opts = case.get("opts", {}).get(name, {})
+                cfg[name] = [{"file": str(root.joinpath(*comp_target(case, i)[1])),
+                              "defines": entry_defines(case, name, defs),
+                              "include_paths": [str(root.joinpath(*case["incdirs"][d])) for d in opts.get("I", [])],
+                              "include_files": list(opts.get("include", []))} for i in comp]
             with shuffled_fs(sseed):
                 cb = codebasin.CodeBase(str(root))
                 state = finder.find(str(root), cb, cfg)
@@ -908,7 +1009,7 @@ class C14(Check):
         sets = {f: [set() for _ in ns] for f, ns in nodes_of.items()}
         for name, defs, comp in case["plats"]:
             for c in comp:
-                for p, n in reach_all(case["files"], comp_target(case, c)[0], defs):
+                for p, n in entry_hits(case, name, defs, c):
                     sets[pstr(p)][n].add(name)
         out, per_file = [], {}
         for p, _ in case["files"]:
@@ -940,7 +1041,7 @@ class C14(Check):
             name, defs, comp = case["plats"][0]
             hits = {}
             for c in comp:
-                for p, n in reach_all(case["files"], comp_target(case, c)[0], defs):
+                for p, n in entry_hits(case, name, defs, c):
                     hits.setdefault(pstr(p), set()).add(n)
             cov = []
             for mname, f in members:
@@ -1089,6 +1190,7 @@ class C14(Check):
         def fix(files, plats, links):
             nev = sum(len(p[2]) for p in plats)
             return {"k": "F", "files": files, "links": [list(l) for l in links], "plats": plats, "runs": case["runs"],
+                    "incdirs": case.get("incdirs", []), "opts": case.get("opts", {}),
                     "perms": [[list(reversed(range(len(files) + len(links)))), list(reversed(range(nev)))]]}
         if not still_fails(fix(case["files"], case["plats"], case.get("links", []))):
             return case
@@ -1131,18 +1233,18 @@ class C14(Check):
 
     def shrink_P(self, case, still_fails, budget=28):
         sched = case["sched"]
-        cur = self.p_fix(case["files"], case["plats"], sched, case.get("links", []))
+        cur = self.p_fix(case["files"], case["plats"], sched, case.get("links", []), case)
         if not still_fails(cur):
             return case
         budget -= 1
         # one perturbed schedule next to the baseline is enough if it still fails
         for k in range(1, len(sched)):
-            cand = self.p_fix(cur["files"], cur["plats"], [sched[0], sched[k]], cur["links"])
+            cand = self.p_fix(cur["files"], cur["plats"], [sched[0], sched[k]], cur["links"], case)
             budget -= 1
             if still_fails(cand):
                 cur, sched = cand, [sched[0], sched[k]]
                 break
-        return self.shrink_parts(cur, lambda f, p, l: self.p_fix(f, p, sched, l), still_fails, budget)
+        return self.shrink_parts(cur, lambda f, p, l: self.p_fix(f, p, sched, l, case), still_fails, budget)
 
     def self_tests(self):
         """The runner (three tools through runpy in one fresh interpreter) must print what the real
